@@ -208,7 +208,7 @@ def e2e(ctx, variant, found):
             idx = len(events)
             tags = set(s.get("win") or [])
             if op in ("Add", "Remove"):
-                for tg in ("readd-other-type", "remove-other-type", "readd-same-type"):
+                for tg in ("readd-other-type", "remove-other-type"):
                     if tg in tags:
                         why[s["a"]] = tg
             elif op == "Round":
@@ -226,7 +226,10 @@ def e2e(ctx, variant, found):
                         stats["rr_exact"] += 1
                 sig = None
                 if got != 0 and got not in allowed:
-                    sig = "selected-not-usable/" + (why.get(got) or "unattributed")
+                    # the wrong entry is either the selected address' own (stale tier entry) or the result of a
+                    # usable member having been dropped by a stale mark (then another tier / host shows up)
+                    tg = why.get(got) or ("stale-object-mark" if any(why.get(a) == "stale-object-mark" for a in allowed) else None)
+                    sig = "selected-not-usable/" + (tg or "unattributed")
                     what = "connection %d went to backend %d, allowed %s" % (s["id"], got, allowed)
                 elif got == 0 and allowed:
                     tg = [why[a] for a in allowed if a in why]
